@@ -587,7 +587,7 @@ fn c11_server(tier: &str, seed: u64) {
   let n = if quick(tier) { 12 } else { 150 };
   for si in 0..n {
     let mds: Vec<u8> = match si % 4 {
-      0 => vec![0, 1, 2, 3],
+      0 => vec![0, 1, 1, 2, 3, 3, 3], // a tag list may name a tag more than once
       1 => (0..g.range(1, 6)).map(|_| g.next() as u8).collect(),
       2 => vec![0, 128, 255],
       _ => (0..=255u8).step_by(g.range(1, 9) as usize).collect(),
@@ -654,6 +654,13 @@ fn c11_server(tier: &str, seed: u64) {
           let mut out = [0u8; 32];
           if srv.verif_pprf().eval(&[x], &mut out).is_ok() {
             fail("punctured_input_still_evaluates", &[("where", holder.to_string()), ("registered_tags", hex(&mds)), ("trace", trace.clone()), ("input", x.to_string()), ("value", hex(&out))]);
+          }
+          // ... and nothing else the server keeps (tables, caches) answers for the tag either
+          let (bp, _) = ppoprf::ppoprf::Client::blind(b"c11");
+          for verifiable in [false, true] {
+            if let Ok(ev) = srv.eval(&bp, x, verifiable) {
+              fail("punctured_input_still_evaluates", &[("where", format!("{}: Server::eval(verifiable = {})", holder, verifiable)), ("registered_tags", hex(&mds)), ("trace", trace.clone()), ("input", x.to_string()), ("value", hex(ev.output.as_bytes()))]);
+            }
           }
         }
         // every input not punctured is still covered by exactly one retained node
